@@ -919,10 +919,12 @@ fn cli_checks(ctx: &mut Ctx, rep: &mut Rep) {
     let _ = std::fs::create_dir_all(&dir);
     let path = format!("{}/input.log", dir);
     // flat records only: nested objects print in hash order (C13's business)
-    let flat = "{\"k\":\"a\",\"n\":3,\"x\":1.5,\"s\":\"alpha GET\",\"status\":200}\n{\"k\":\"b\",\"n\":-1,\"s\":\"error\",\"status\":500}\nk=a n=4 status=200 msg=\"hello error\"\nplain GET line\n{\"k\":\"a\",\"n\":12,\"status\":404}\n";
+    let flat = "{\"k\":\"a\",\"n\":3,\"x\":1.5,\"s\":\"alpha GET\",\"status\":200,\"Status\":\"OK\",\"reqId\":\"R1\"}\n{\"k\":\"b\",\"n\":-1,\"s\":\"error\",\"status\":500}\nk=a n=4 status=200 msg=\"hello error\"\nplain GET line\n{\"k\":\"a\",\"n\":12,\"status\":404}\n";
     let _ = std::fs::write(&path, flat);
     let queries = ["* | json", "* | json | count by k", "GET | json | fields k, n", "* | logfmt | where status == 200", "error", "* | json | limit 2"];
-    let formats = ["{k} => {n}", "{status}", "k={k:>5} n={n:.2}", "plain text", "{missing}", "{k}{k}"];
+    // the format string must reach the printer verbatim whichever way it is given: case, `=`,
+    // blanks, non-ASCII text and upper-case field names included
+    let formats = ["{k} => {n}", "{status}", "k={k:>5} n={n:.2}", "plain text", "{missing}", "{k}{k}", "LEVEL={k} MSG={s}", "{Status} / {reqId}", "Ünïcode {k} É=ß", "a=b=c {n}", "  lead and trail  ", "{K}"];
     for (i, q) in queries.iter().enumerate() {
         // --file P ≡ < P (every output mode)
         for mode in [vec![], vec!["-o", "json"], vec!["-o", "logfmt"], vec!["-o", "legacy"]] {
